@@ -35,7 +35,7 @@ ASSUMPTIONS = [
 ]
 SHARDS = {'quick': 1, 'thorough': 4}
 TIMEOUT = {'quick': 900, 'thorough': 1800}
-FLOORS = {'container_log_requests_checked': 1500, 'container_log_requests_that_reached_a_worker_or_the_store': 16, 'denials_checked': 600, 'routes_enumerated': 60, 'allowed_mutations_observed': 10, 'ownership_denials_checked': 20,
+FLOORS = {'admin_requests_by_lookalike_usernames_checked': 400, 'billing_listings_by_lookalike_usernames_checked': 60, 'container_log_requests_checked': 1500, 'container_log_requests_that_reached_a_worker_or_the_store': 16, 'denials_checked': 600, 'routes_enumerated': 60, 'allowed_mutations_observed': 10, 'ownership_denials_checked': 20,
           'listing_responses_scanned': 150, 'records_in_listings_checked': 300, 'listings_with_foreign_jobs_in_matching_state': 40, 'revoked_member_requests_checked': 60}
 
 # search terms for the listing routes: v1 (bare words, multi-state words, negations) and v2 (state / comparison expressions)
@@ -264,6 +264,67 @@ async def log_phase(ctx, w, fz, fe, base_state, batches):
                             ctx.violation('access-granted/non-member', f'GET {url} answered 200 to {caller} ({uname})', case)
 
 
+async def names_phase(ctx, w, fe, base_state, routes, body_for):
+    """Who is an administrator is decided by the developer flag or by BEING the service account 'auth': callers whose username
+    merely resembles a privileged name (substring, prefix, suffix, superstring, other case, padded) are ordinary users.  Every
+    administration route must deny them and change nothing, and the billing-project listings must show them only the projects
+    they belong to (none)."""
+    import json as _json
+
+    base = 'auth'
+    names = set()
+    for i in range(len(base)):
+        for j in range(i + 1, len(base) + 1):
+            if base[i:j] != base:
+                names.add(base[i:j])
+    names |= {'auth1', 'xauth', 'auth-svc', 'authx', 'aauth', 'Auth', 'AUTH', 'auth ', ' auth', 'au th', 'auth.', 'dev', 'developer', 'de', 'ev', 'root', 'admin', ''}
+    # only names an account can really have (the auth service validates usernames when it creates users)
+    from auth.auth_utils import is_valid_username
+
+    ctx.count('lookalike_usernames_that_are_not_valid_usernames', sum(1 for n in names if not is_valid_username(n)))
+    names = {n for n in names if is_valid_username(n)}
+    ctx.count('lookalike_usernames', len(names))
+    for k, name in enumerate(sorted(names)):
+        fe.auth_service.add(f'tok-name-{k}', dict(userdata('alice'), username=name, id=700 + k, is_developer=0, hail_credentials_secret_name=f'name-{k}-gsa-key'))
+    admin = [(m, p) for m, p in routes if ((('billing_projects' in p or 'billing_limits' in p) and m != 'GET'))]
+    listings = [(m, p) for m, p in routes if m == 'GET' and p in ('/api/v1alpha/billing_projects', '/api/v1alpha/billing_projects/{billing_project}')]
+    for k, name in enumerate(sorted(names)):
+        for method, path in admin + listings:
+            for bp in (('bp-a', 'bp-new') if (method, path) in admin else ('bp-a', 'bp-b')):
+                w.engine.load_state(base_state)
+                url = path.replace('{billing_project}', bp).replace('{user}', 'bob')
+                before = w.engine.snapshot()
+                try:
+                    resp = await fe.request(method, url, token=f'tok-name-{k}', json=body_for(method, path, 0, 0))
+                    status, text = resp.status, resp.text_ or ''
+                    loc = str(resp.headers.get('Location', '')) if resp.headers else ''
+                except Unsupported as e:
+                    raise Inconclusive('minimysql unsupported: ' + str(e))
+                except Exception as e:
+                    status, text, loc = 'exc:' + type(e).__name__, '', ''
+                changed = before != w.engine.snapshot()
+                case = {'method': method, 'route': path, 'caller_username': name, 'billing_project': bp, 'status': status, 'changed': changed}
+                ctx.case(sample=case, key=('names', method, path, name, bp), nontrivial=True)
+                if (method, path) in admin:
+                    ctx.count('admin_requests_by_lookalike_usernames_checked')
+                    denied = (isinstance(status, int) and status >= 400) or (status == 302 and '/user' in loc and 'auth' in loc) or (isinstance(status, str) and not changed)
+                    if not denied:
+                        ctx.violation('access-granted/non-admin', f'{method} {path} answered {status} to the non-developer user {name!r}', case)
+                    if changed:
+                        ctx.violation('state-changed-on-denied-request/non-admin', f'{method} {path} by the non-developer user {name!r} changed the tables (status {status})', case)
+                else:
+                    ctx.count('billing_listings_by_lookalike_usernames_checked')
+                    if status == 200 and text.lstrip()[:1] in '[{':
+                        try:
+                            doc = _json.loads(text)
+                        except ValueError:
+                            doc = None
+                        recs = doc if isinstance(doc, list) else [doc] if isinstance(doc, dict) else []
+                        leaked = [r.get('billing_project') for r in recs if isinstance(r, dict) and r.get('billing_project')]
+                        if leaked:
+                            ctx.violation('response-leaks-billing-project-of-non-member', f'GET {url} answered the non-developer user {name!r}, member of no billing project, with {leaked}', dict(case, leaked=leaked))
+
+
 async def revocation_phase(ctx, w, fe, base_state, own, routes):
     """Membership is judged at the time of the request: bob (member of bp-a) touches alice's batch, a developer removes bob
     from bp-a through the real administration route, and from then on every batch-scoped request of bob must be denied and
@@ -463,6 +524,7 @@ def run(ctx):
                             ctx.count('allowed_mutations_observed')
         await listing_phase(ctx, w, fe, base_state, {'own': own, 'shared': shared, 'foreign': foreign, 'deleted': deleted}, routes)
         await revocation_phase(ctx, w, fe, base_state, own, routes)
+        await names_phase(ctx, w, fe, base_state, routes, body_for)
         await log_phase(ctx, w, fz, fe, base_state, {'own': own, 'shared': shared, 'foreign': foreign, 'deleted': deleted})
         await w.shutdown()
     run_virtual(main, max_steps=20_000_000)
